@@ -125,7 +125,7 @@ def run_case(case, sb):
     raised = res["raised"] is not None
     if raised != exp["raises"]:
         problems.append({"raises_expected": exp["raises"], "observed": res["raised"]})
-    err_lines = sorted(set(e[0] for e in res["errors"]))
+    err_lines = sorted(set(e[0] for e in res["errors"]), key=lambda v: (str(type(v)), str(v)))
     if err_lines != exp["error_lines"]:
         problems.append({"error_lines_expected": exp["error_lines"], "observed": res["errors"]})
     if res["is_valid"] != exp["is_valid"]:
@@ -137,7 +137,7 @@ def run_case(case, sb):
     if printed != exp["printed"]:
         problems.append({"printed_expected": exp["printed"], "observed": res["printouts"][:3]})
     if not raised and not exp["raises"]:
-        ids = [ln[0] for ln in res["lines"]]
+        ids = [(ln[0] if ln else None) for ln in res["lines"]]
         must = [("id" if n == 0 else f"d{n-1}") for n in exp["returned_must"]]
         mustnot = [("id" if n == 0 else f"d{n-1}") for n in exp["returned_must_not"]]
         if any(m not in ids for m in must) or any(m in ids for m in mustnot) or len(ids) != len(set(ids)):
